@@ -162,11 +162,11 @@ def shiftFE (eps : Rat) (n : Nat) : Int × Int :=
 
 /-! ### the NBD probability parameter in float64 (binomial_evaluations.py:24) -/
 
-/-- `upsilon = 1.0 - ((var - mean) / var)`: three float64 operations, in the order of the code -/
-def upsilonF (mean var : Rat) : Rat := Soft64.fsub 1 (Soft64.fdiv (Soft64.fsub var mean) var)
+/-- `upsilon = mean / var`: one float64 operation (the code since fix D47) -/
+def upsilonF (mean var : Rat) : Rat := Soft64.fdiv mean var
 
-/-- the algebraically equal `mean / var` (one operation, no cancellation) -- NOT what the code computes; used to state
-    what the cancellation costs -/
-def upsilonDirectF (mean var : Rat) : Rat := Soft64.fdiv mean var
+/-- `upsilon = 1.0 - ((var - mean) / var)`: the three float64 operations of the code BEFORE fix D47, in its order.
+    The same real number; the subtraction from 1.0 cancels (findings `finding_nbd_upsilon_zero`, `…_inexact`) -/
+def upsilonOldF (mean var : Rat) : Rat := Soft64.fsub 1 (Soft64.fdiv (Soft64.fsub var mean) var)
 
 end NumberTest
